@@ -28,7 +28,19 @@ class CFG:
         if not self.ok:
             return
         for b in d['blocks']:
-            self.blocks[b['id']] = Block(b)
+            blk = Block(b)
+            # for `if (a && b)` clang reports the whole `a && b` as the condition of the block that
+            # evaluates `b` (terminator = the IfStmt): the value branched on there is the right-most leaf
+            if blk.cond is not None and blk.term is not None and blk.term != blk.cond:
+                c = blk.cond
+                while True:
+                    st = func.stmts[func.strip(c)]
+                    if st['k'] == 'BinaryOperator' and st.get('op') in ('&&', '||'):
+                        c = st['ch'][1]
+                    else:
+                        break
+                blk.cond = func.strip(c)
+            self.blocks[b['id']] = blk
         self.entry = d['entry']
         self.exit = d['exit']
         for b in self.blocks.values():
